@@ -699,7 +699,7 @@ func init() {
 		Level: "exploration",
 		Rule: "seeded generation of dtail follows of 1-2 files (serverless / SSH, with and without --regex): 0-50 pre-existing lines (some unterminated), 0-300 appended tagged " +
 			"lines (multi-byte UTF-8) written by a simulated writer in write() calls of 1 byte to 6 KB (inside lines and characters, many lines per call) spaced by " +
-			"0/1/50/99/100/101/250/3100 ms, an unterminated trailing part, three slow sentinel lines at the end; consumer pacing; the follow start is observed through " +
+			"0/1/50/99/100/101/250/3100 ms, an unterminated trailing part, three slow sentinel lines per file behind a barrier (all writers done, queue drained); 15 % with MaxLineLength 64, lines of exactly that length and truly empty lines; consumer pacing; the follow start is observed through " +
 			"/proc/self/fdinfo; non-trivial = at least one appended line; distinct = (scenario shape, schedule hash)",
 		Real: []string{"internal/clients (tail client)", "internal/server/handlers", "internal/io/fs (readfile tail path, stats)", "internal/server + x/crypto/ssh over simnet (SSH runs)"},
 		Stub: []string{"cmd/dtail main replica; Ctrl-C modelled as context cancel", "the log writer is a harness goroutine appending to a real file"},
